@@ -5,4 +5,4 @@ patch=/tmp/seed-$prop/$n/patch.diff
 [ -f "$patch" ] || patch=/verif/seeded/$prop-$n/patch.diff
 git -C /repo apply "$patch" || { echo "PATCH DOES NOT APPLY"; exit 3; }
 cd /verif && VERIF_SCENARIO=$scen ./bin/vcheck $prop 2>&1 | grep -E "^(violation|VIOLATION|C[0-9]+ tier|INTERNAL|ERROR)" | cut -c1-260 | head -8
-git -C /repo checkout -- . ; git -C /repo status --short | head -3
+git -C /repo checkout -- . ; git -C /repo clean -fdq; git -C /repo status --short | head -3
